@@ -88,6 +88,11 @@ def main():
                 bad.append((cid, "after " + cm[-1] + " the harness printed " + repr(tail), ""))
                 continue
         nm, nh = [norm(x) for x in cm], [norm(x) for x in ch]
+        # a harness built without AddressSanitizer cannot answer `leakcheck`
+        for k in range(min(len(nm), len(nh))):
+            if nh[k] == "lsan unavailable" and nm[k].startswith("lsan "):
+                nh[k] = nm[k]
+                outcomes["(lsan not compared)"] += 1
         if nm != nh:
             k = 0
             while k < min(len(nm), len(nh)) and nm[k] == nh[k]:
